@@ -310,6 +310,14 @@ def r7_ranges(ctx, p):
                         a1 = deb.at(pbb).op(pt["args"][1])
                         if a1[0] == "agg" and a1[1] == "closure:" + b.path:
                             hi = rewrite(success_value(p, ("field", ("variant", deb.op(pt["args"][0]), "Some"), "0")), unsplit)
+                            if dp.kind == "Closure":
+                                # the receiver is an expression of the enclosing closure: its own
+                                # captured variables (`last` of `let (first, last) = range;`) by value
+                                from ..expr import resolve_upvars
+                                try:
+                                    hi = resolve_upvars(p, dp, hi)
+                                except Exception:  # noqa: BLE001
+                                    pass
                             # the receiver is in the parent's terms: captured variables by value
                             env, _par = closure_env(p, b)
         def norm(e):
@@ -858,11 +866,34 @@ def run(ctx):
             on_err = any(g[0] == "err" and "AllQuestion" in show(g[1]) for g in gs)
             unguarded_fast = not paths.guards(qp, fb, eb)
             okk = on_err and unguarded_fast and show(eb.at(fb).op(ft["args"][0])) == "patterns" and show(eb.at(rb).op(rt["args"][0])) == "patterns"
+        variants = {}
+        if not okk:
+            # combinator form: AllQuestion::parse(patterns).map(Question::AllQustion)
+            #                      .or_else(|_| RegexWrap::parse(patterns).map(Question::Regex))
+            # (or_else runs its closure only on Err, with the Ok value passed through unchanged)
+            from ..expr import resolve_upvars
+            rets = [e for _bb, e, _it in paths.return_exprs(qp, eb)]
+            if len(rets) == 1 and rets[0][0] == "call" and rets[0][1].endswith("Result::<T, E>::or_else") and len(rets[0][2]) == 2:
+                first, clo = rets[0][2]
+                fpay = first
+                if first[0] == "call" and first[1].endswith("Result::<T, E>::map") and len(first[2]) == 2 and first[2][1][0] == "fn":
+                    variants[first[2][1][1].rsplit("::", 1)[-1]] = show(first[2][0])
+                    fpay = first[2][0]
+                cb = p.bodies.get(clo[1][len("closure:"):]) if clo[0] == "agg" and str(clo[1]).startswith("closure:") else None
+                if cb is not None and fpay[0] == "call" and "AllQuestion as jlabel_question::QuestionMatcher>::parse" in fpay[1] and len(fpay[2]) == 1 and show(fpay[2][0]) == "patterns" and len(fast) == 1:
+                    ceb = ExprBuilder(cb)
+                    crets = [resolve_upvars(p, cb, e) for _bb, e, _it in paths.return_exprs(cb, ceb)]
+                    if len(crets) == 1:
+                        ce = crets[0]
+                        if ce[0] == "call" and ce[1].endswith("Result::<T, E>::map") and len(ce[2]) == 2 and ce[2][1][0] == "fn":
+                            inner = ce[2][0]
+                            if inner[0] == "call" and inner[1] == "model::voice::question::RegexWrap::parse" and len(inner[2]) == 1 and show(inner[2][0]).lstrip("*&") == "patterns":
+                                variants[ce[2][1][1].rsplit("::", 1)[-1]] = show(inner)
+                                okk = not paths.guards(qp, fast[0][0], eb)
         if okk:
             ctx.ok("C04-R6", "Question::parse: AllQuestion::parse(patterns) first; RegexWrap::parse(patterns) only on its Err", qp.loc())
         else:
             ctx.fail("C04-R6", qp.path, "fallback order", "the fast matcher is not tried first with the regex matcher as its error fallback", qp.loc())
-        variants = {}
         for bb, i, st in qp.iter_stmts():
             if st["k"] == "assign" and st["rv"]["k"] == "aggregate" and st["rv"]["kind"].get("def") == "model::voice::question::Question":
                 v = st["rv"]["kind"]["variant"]
